@@ -178,20 +178,41 @@ func (g *Generator) generateTimestampFieldMarshal(gf *protogen.GeneratedFile, fi
 	jsonName := field.Desc.JSONName()
 	format := fieldInfo.Format
 
-	gf.P("// Convert ", field.Desc.Name(), " to ", format.String(), " format")
-	gf.P("if x.", goName, " != nil {")
-	gf.P("t := x.", goName, ".AsTime()")
-
+	// The JSON value of one timestamp held in the Go variable t
+	var valueExpr string
 	switch format {
 	case http.TimestampFormat_TIMESTAMP_FORMAT_UNIX_SECONDS:
-		gf.P(`raw["`, jsonName, `"], _ = json.Marshal(t.Unix())`)
+		valueExpr = "t.Unix()"
 	case http.TimestampFormat_TIMESTAMP_FORMAT_UNIX_MILLIS:
-		gf.P(`raw["`, jsonName, `"], _ = json.Marshal(t.UnixMilli())`)
+		valueExpr = "t.UnixMilli()"
 	case http.TimestampFormat_TIMESTAMP_FORMAT_DATE:
-		gf.P(`raw["`, jsonName, `"], _ = json.Marshal(t.Format("2006-01-02"))`)
+		valueExpr = `t.Format("2006-01-02")`
 	}
 
-	gf.P("}")
+	gf.P("// Convert ", field.Desc.Name(), " to ", format.String(), " format")
+	switch {
+	case field.Desc.IsList():
+		// A repeated field: every element is converted
+		gf.P("if len(x.", goName, ") > 0 {")
+		gf.P("converted := make([]any, 0, len(x.", goName, "))")
+		gf.P("for _, element := range x.", goName, " {")
+		gf.P("t := element.AsTime()")
+		gf.P("converted = append(converted, ", valueExpr, ")")
+		gf.P("}")
+		gf.P(`raw["`, jsonName, `"], _ = json.Marshal(converted)`)
+		gf.P("}")
+	case field.Oneof != nil && !field.Oneof.Desc.IsSynthetic():
+		// A oneof member lives in its wrapper type
+		gf.P("if member, ok := x.Get", field.Oneof.GoName, "().(*", field.GoIdent, "); ok && member.", goName, " != nil {")
+		gf.P("t := member.", goName, ".AsTime()")
+		gf.P(`raw["`, jsonName, `"], _ = json.Marshal(`, valueExpr, `)`)
+		gf.P("}")
+	default:
+		gf.P("if x.", goName, " != nil {")
+		gf.P("t := x.", goName, ".AsTime()")
+		gf.P(`raw["`, jsonName, `"], _ = json.Marshal(`, valueExpr, `)`)
+		gf.P("}")
+	}
 	gf.P()
 }
 
@@ -240,6 +261,11 @@ func (g *Generator) generateTimestampFieldUnmarshal(gf *protogen.GeneratedFile, 
 	jsonName := field.Desc.JSONName()
 	format := fieldInfo.Format
 
+	if field.Desc.IsList() {
+		g.generateTimestampListUnmarshal(gf, jsonName, format)
+		return
+	}
+
 	gf.P("// Convert ", jsonName, " from ", format.String(), " to RFC 3339 for protojson")
 	gf.P(`if v, ok := raw["`, jsonName, `"]; ok {`)
 
@@ -266,6 +292,50 @@ func (g *Generator) generateTimestampFieldUnmarshal(gf *protogen.GeneratedFile, 
 		gf.P("}")
 	}
 
+	gf.P("}")
+	gf.P()
+}
+
+// generateTimestampListUnmarshal converts every element of a repeated Timestamp field back to RFC 3339.
+// If an element cannot be converted the member is left as it is and protojson reports the error.
+//
+//nolint:exhaustive // Only non-default formats need handling
+func (g *Generator) generateTimestampListUnmarshal(gf *protogen.GeneratedFile, jsonName string, format http.TimestampFormat) {
+	gf.P("// Convert the elements of ", jsonName, " from ", format.String(), " to RFC 3339 for protojson")
+	gf.P(`if v, ok := raw["`, jsonName, `"]; ok {`)
+	gf.P("var elements []json.RawMessage")
+	gf.P("if err := json.Unmarshal(v, &elements); err == nil {")
+	gf.P("converted := make([]string, 0, len(elements))")
+	gf.P("for _, element := range elements {")
+	switch format {
+	case http.TimestampFormat_TIMESTAMP_FORMAT_UNIX_SECONDS:
+		gf.P("var n int64")
+		gf.P("if err := json.Unmarshal(element, &n); err != nil {")
+		gf.P("break")
+		gf.P("}")
+		gf.P("converted = append(converted, time.Unix(n, 0).UTC().Format(time.RFC3339Nano))")
+	case http.TimestampFormat_TIMESTAMP_FORMAT_UNIX_MILLIS:
+		gf.P("var n int64")
+		gf.P("if err := json.Unmarshal(element, &n); err != nil {")
+		gf.P("break")
+		gf.P("}")
+		gf.P("converted = append(converted, time.UnixMilli(n).UTC().Format(time.RFC3339Nano))")
+	case http.TimestampFormat_TIMESTAMP_FORMAT_DATE:
+		gf.P("var s string")
+		gf.P("if err := json.Unmarshal(element, &s); err != nil {")
+		gf.P("break")
+		gf.P("}")
+		gf.P(`t, parseErr := time.Parse("2006-01-02", s)`)
+		gf.P("if parseErr != nil {")
+		gf.P("break")
+		gf.P("}")
+		gf.P("converted = append(converted, t.Format(time.RFC3339Nano))")
+	}
+	gf.P("}")
+	gf.P("if len(converted) == len(elements) {")
+	gf.P(`raw["`, jsonName, `"], _ = json.Marshal(converted)`)
+	gf.P("}")
+	gf.P("}")
 	gf.P("}")
 	gf.P()
 }
